@@ -5,9 +5,11 @@ by running the binary.  Monitor instead: the reference interpreter executes
 the region with a separate device store driven by exactly the copyin /
 copyout / copy clauses that the real ACCDataTrans (around ACCKernelsTrans)
 emits: copyout arrays start undefined (poison) on the device and are copied
-back whole; copyin arrays are not copied back; arrays in no clause get the
-kernels construct's implicit copy.  Host arrays after the region must equal
-the host-only run.
+back whole; copyin arrays are not copied back; arrays in NO clause are not
+moved at all (the property speaks of "exactly the movements PSyclone
+generates": their device copy is undefined and nothing comes back).  Regions
+with calls are wrapped by ACCDataTrans alone.  Host arrays after the region
+must equal the host-only run.
 """
 import os
 import random
@@ -32,6 +34,7 @@ class DeviceTracer(finterp.Tracer):
         self.done = False
         self.frame = None
         self.snapshot = {}
+        self.noclause = set()
         self.written = {}
 
     def stmt(self, s, phase):
@@ -49,13 +52,20 @@ class DeviceTracer(finterp.Tracer):
                             c.v = finterp.POISON     # device alloc, no copy
                     elif name in self.cl["copyin"]:
                         self.snapshot[name] = [c.v for c in obj.cells]
+                    elif name not in self.cl["copy"]:
+                        # in NO clause: nothing is moved in either direction
+                        self.snapshot[name] = [c.v for c in obj.cells]
+                        self.noclause.add(name)
+                        for c in obj.cells:
+                            c.v = finterp.POISON
         if s is self.last and phase == 1 and self.inside:
             self.inside = False
             self.done = True
             if self.cl is not None:
                 for name, obj in self.frame.items():
-                    if isinstance(obj, finterp.Arr) and \
-                            name in self.cl["copyin"]:
+                    if isinstance(obj, finterp.Arr) and (
+                            name in self.cl["copyin"] or
+                            name in self.noclause):
                         # device changes are not copied back
                         for c, v in zip(obj.cells, self.snapshot[name]):
                             c.v = v
@@ -85,6 +95,9 @@ def run(unit, seed, nn, first, last, clauses):
             "written": tr.written}
 
 
+from vf.checks.c12 import cond_write_fact  # noqa: E402
+
+
 def batch(arg):
     from psyclone.psyir.nodes import Routine
     from psyclone.psyir.transformations import (ACCKernelsTrans,
@@ -94,9 +107,34 @@ def batch(arg):
     rnd = random.Random(arg["seed"])
     inputs = diffrun.INPUTS[:arg["ninputs"]]
     for n in range(arg["count"]):
-        unit, _ = scen.make("region", rnd.random(), False)
+        # half of the kernels contain calls that update a whole array passed
+        # by reference; such regions are wrapped by ACCDataTrans alone (the
+        # kernels transformation refuses calls), the property's model still
+        # runs the whole region on the device
+        with_calls = rnd.random() < 0.5
+        unit, _ = scen.make("region_calls" if with_calls else "region",
+                            rnd.random(), False)
+        if rnd.random() < 0.35:
+            # an array whose declaration PSyclone can only keep as text
+            # (UnsupportedFortranType without a partial datatype)
+            dd = [d for d in unit["routines"][0]["decls"]
+                  if d["name"] in ("a", "b", "c")]
+            rnd.choice(dd)["attrs"] = [rnd.choice(["volatile",
+                                                   "asynchronous"])]
+            part.count("kernels_with_unsupported_type_array")
         text = flite.module_text(unit)
         body = unit["routines"][0]["body"]
+
+        def passed_to_call(i, j, name):
+            found = [False]
+
+            def f(st):
+                if st[0] == "call":
+                    for a_ in st[2]:
+                        if a_[0] in ("var", "arr") and a_[1].lower() == name:
+                            found[0] = True
+            flite.walk_stmts(body[i:j + 1], f)
+            return found[0]
         regions = [(i, j) for i in range(len(body))
                    for j in range(i, min(len(body), i + 6))]
         rnd.shuffle(regions)
@@ -112,8 +150,12 @@ def batch(arg):
                 part.count("statement_mapping_failed")
                 break
             try:
-                ACCKernelsTrans().apply(kern.children[i:j + 1])
-                ACCDataTrans().apply(kern.children[i])
+                if with_calls:
+                    ACCDataTrans().apply(kern.children[i:j + 1])
+                    part.count("data_only_regions_attempted")
+                else:
+                    ACCKernelsTrans().apply(kern.children[i:j + 1])
+                    ACCDataTrans().apply(kern.children[i])
             except TransformationError:
                 part.count("refused")
                 continue
@@ -151,6 +193,14 @@ def batch(arg):
                             w.name == c.name and w is not c
                             for w in dev["written"].values()):
                         mech = "copyout.partial_write"
+                        if passed_to_call(i, j, c.name):
+                            # an array passed by reference to a call has a
+                            # READWRITE access: not the known mechanism
+                            mech = None
+                    if mech is None and c.name in cl["copyout"] and \
+                            not passed_to_call(i, j, c.name) and \
+                            cond_write_fact(body[i:j + 1], c.name):
+                        mech = "copyout.conditional_write"
                     part.violation({
                         "kind": "device_reads_array_that_was_not_copied_in",
                         "mechanism": mech,
@@ -175,6 +225,12 @@ def batch(arg):
                         if name in cl["copyout"] and \
                                 len(wrote) < len(hv[name]):
                             mech = "copyout.partial_write"
+                            if passed_to_call(i, j, name):
+                                mech = None
+                        if mech is None and name in cl["copyout"] and \
+                                not passed_to_call(i, j, name) and \
+                                cond_write_fact(body[i:j + 1], name):
+                            mech = "copyout.conditional_write"
                         part.violation({
                             "kind": "host_array_differs_after_data_region",
                             "mechanism": mech,
